@@ -56,6 +56,9 @@ func NewTDistribution(nu Scalar, mu Vector, sigma Matrix) (*TDistribution, error
   if n != mu.Dim() {
     return nil, fmt.Errorf("NewTDistribution(): dimensions of mu and sigma do not match!")
   }
+  if nu.GetFloat64() <= 0.0 {
+    return nil, fmt.Errorf("NewTDistribution(): invalid value for parameter nu: %f", nu.GetFloat64())
+  }
   sigmaInv, err := matrixInverse.Run(sigma, matrixInverse.PositiveDefinite{true})
   if err != nil { return nil, err }
   sigmaDet, err := determinant  .Run(sigma, determinant  .PositiveDefinite{true})
